@@ -13,7 +13,7 @@
 From Coq Require Import ZArith List Bool.
 Import ListNotations.
 From Urwid Require Import PyBase PyList Utf8 wcwidth_table_gen str_util_gen Width
-     WidthFacts WidthProofs Utf8Proofs WideProofs RleProofs WidthTableProofs WidthTop.
+     WidthFacts WidthProofs Utf8Proofs WideProofs WideExact RleProofs WidthTableProofs WidthTop.
 Open Scope Z_scope.
 
 (* ================= clause 1: widths are additive over character boundaries ================= *)
@@ -122,24 +122,37 @@ Theorem narrow_text_pos :
 Proof. exact calc_text_pos_narrow_spec. Qed.
 Print Assumptions narrow_text_pos.
 
-(* PARTIAL (double-byte): the theorems above hold for arbitrary bytes.  What is NOT proved: for a
-   well-formed double-byte text (single bytes < 0x80; pairs lead 0x81..0xFF, trail 0x40..0x7E or
-   0x80..0xFF) within_double_byte is exact (0 / 1 / 2 = single / first / second byte of its character)
-   and therefore move_next_char / move_prev_char are inverse on character boundaries.  Stated here,
-   decided by the correspondence and the oracle (euc-jp, big5, gbk, euc-kr texts). *)
-Inductive dbchar := DSingle (b : Z) | DDouble (lead trail : Z).
-Definition dbchar_ok (c : dbchar) : Prop :=
+(* Well-formed double-byte text (WideExact.v): a list of characters, each a single byte < 0x80 or a
+   pair lead 0x81..0xFF, trail 0x40..0x7E or 0x80..0xFF (EUC-JP/KR/CN, Big5, GBK, UHC), at any
+   position inside a larger byte string, scanned from any boundary [ls = zlen A0]:
+   within_double_byte is exact. *)
+Theorem within_double_byte_exact :
+  forall A0 m1 c m2 B0, Forall dbchar_ok (m1 ++ c :: m2) ->
+  let text := A0 ++ dbflat (m1 ++ c :: m2) ++ B0 in
+  let ls := zlen A0 in
+  let p := zlen A0 + zlen (dbflat m1) in
   match c with
-  | DSingle b => 0 <= b < 128
-  | DDouble l t => 129 <= l <= 255 /\ (64 <= t <= 126 \/ 128 <= t <= 255)
+  | DSingle _ => within_double_byte text ls p = Ok 0
+  | DDouble _ _ => within_double_byte text ls p = Ok 1 /\ within_double_byte text ls (p + 1) = Ok 2
   end.
-Definition dbbytes (c : dbchar) : list Z := match c with DSingle b => [b] | DDouble l t => [l; t] end.
-Definition move_next_prev_inverse_wide_full : Prop :=
+Proof. exact wdb_exact. Qed.
+Print Assumptions within_double_byte_exact.
+
+Theorem move_next_prev_inverse_wide :
   forall pre c post, Forall dbchar_ok (pre ++ c :: post) ->
-    let text := flat_map dbbytes (pre ++ c :: post) in
-    let a := zlen (flat_map dbbytes pre) in
-    exists n, move_next_char MWide text a (zlen text) = Ok n /\ n = a + zlen (dbbytes c) /\
-              move_prev_char MWide text 0 n = Ok a.
+  let text := dbflat (pre ++ c :: post) in
+  let a := zlen (dbflat pre) in
+  exists n, move_next_char MWide text a (zlen text) = Ok n /\ n = a + zlen (dbbytes c) /\
+            move_prev_char MWide text 0 n = Ok a.
+Proof. exact WideExact.move_next_prev_inverse_wide. Qed.
+Print Assumptions move_next_prev_inverse_wide.
+
+Theorem is_wide_char_double_byte :
+  forall wcw pre c post, Forall dbchar_ok (pre ++ c :: post) ->
+  is_wide_char wcw MWide (dbflat (pre ++ c :: post)) (zlen (dbflat pre))
+  = Ok (match c with DSingle _ => false | DDouble _ _ => true end).
+Proof. exact is_wide_char_wide. Qed.
+Print Assumptions is_wide_char_double_byte.
 
 (* ================= clause 4: trimming a line to a column range ================= *)
 Theorem calc_trim_text_spec :
@@ -193,7 +206,8 @@ Proof. exact calc_trim_text_generic. Qed.
 Print Assumptions calc_trim_text_generic_spec.
 
 (* NOT proved: the trimming specification for the double-byte mode on well-formed double-byte text
-   (needs the exactness of within_double_byte, see above) and the length law of trim_text_attr_cs
+   (it would follow from calc_trim_text_generic_spec, within_double_byte_exact and a classification of
+   the positions of a well-formed text; not done) and the length law of trim_text_attr_cs
    (text, attribute runs and charset runs of the result have the same length): correspondence and
    oracle only. *)
 Definition trim_text_attr_cs_lengths_full : Prop :=
